@@ -157,7 +157,10 @@ var before = []mutant{
 		}
 		return true
 	}),
-	consMut("full-data-hash", func(w *world, h *hmsg, sm *specqbft.SignedMessage) bool { sm.Message.Root[5] ^= 1; return len(sm.FullData) > 0 }),
+	consMut("full-data-hash", func(w *world, h *hmsg, sm *specqbft.SignedMessage) bool {
+		sm.Message.Root[5] ^= 1
+		return len(sm.FullData) > 0
+	}),
 	consMut("slot-window", func(w *world, h *hmsg, sm *specqbft.SignedMessage) bool { sm.Message.Height += 1000; return true }),
 	consMut("slot-window", func(w *world, h *hmsg, sm *specqbft.SignedMessage) bool { sm.Message.Height += 40; return true }),
 	consMut("slot-window", func(w *world, h *hmsg, sm *specqbft.SignedMessage) bool { sm.Message.Height -= 2000; return true }),
